@@ -88,3 +88,60 @@ Theorem C02_number_printable :
     (f < 18446744073709551616)%N -> f_decode f = FFin s m e -> num_ok (num_of_f f).
 Proof. exact num_of_f_ok. Qed.
 Print Assumptions C02_number_printable.
+
+(* closing the loop with the parser: every value the parser returns from any byte stream is printable, so the round trip needs no hypothesis with --utf8-strings, and only the absence of astral code points (K1) without it *)
+From Jawk Require Import Base Json Reader JsonParser Stream Printer Go PrinterProofs ParsedPrintable.
+
+(* unconditional: every value of every input stream (malformed regions included) is printable with --utf8-strings *)
+Theorem C02_parsed_printable :
+  forall (bs : list byte) (vs : list json) (n : N),
+    values_of_bytes bs = (vs, n) -> Forall (printable true) vs.
+Proof. exact values_printable_utf8. Qed.
+Print Assumptions C02_parsed_printable.
+
+(* for every input stream and every style, printing what was parsed and parsing it again gives the same values and no error *)
+Theorem C02_parsed_roundtrip :
+  forall (st : jstyle) (bs : list byte),
+    let vs := fst (values_of_bytes bs) in
+    values_of_bytes (concat (map (fun v : json => print_json st true v ++ [10%N]) vs)) = (vs, 0%N).
+Proof. exact parsed_roundtrip. Qed.
+Print Assumptions C02_parsed_roundtrip.
+
+Theorem C02_parsed_roundtrip_ascii :
+  forall (st : jstyle) (bs : list byte),
+    let vs := fst (values_of_bytes bs) in
+    Forall no_astral vs ->
+    values_of_bytes (concat (map (fun v : json => print_json st false v ++ [10%N]) vs)) = (vs, 0%N).
+Proof. exact parsed_roundtrip_ascii. Qed.
+Print Assumptions C02_parsed_roundtrip_ascii.
+
+(* the default-options fixpoint for every input stream without astral code points *)
+Theorem C02_parsed_fixpoint :
+  forall bs : list byte,
+    let vs := fst (values_of_bytes bs) in
+    Forall no_astral vs ->
+    let out := concat (map (fun v : json => print_json OneLine false v ++ [10%N]) vs) in
+    let g := go GoProofs.default_cfg [(None, map EB out)] true in
+    g_result g = GOk /\
+    concat (map (fun e : oev => match e with
+                                | OOut b => b
+                                | OErr _ => []
+                                end) (g_events g)) = out.
+Proof. exact parsed_fixpoint. Qed.
+Print Assumptions C02_parsed_fixpoint.
+
+(* no non-finite number can come from the input (K2 needs arithmetic) *)
+Theorem C02_parsed_finite :
+  forall (bs : list byte) (vs : list json) (n : N),
+    values_of_bytes bs = (vs, n) -> Forall nums_finite vs.
+Proof. exact values_nums_finite. Qed.
+Print Assumptions C02_parsed_finite.
+
+(* K1: without --utf8-strings the hypothesis cannot be dropped *)
+Theorem C02_astral_refuted :
+  ~
+    (forall bs : list byte,
+     let vs := fst (values_of_bytes bs) in
+     values_of_bytes (concat (map (fun v : json => print_json OneLine false v ++ [10%N]) vs)) = (vs, 0%N)).
+Proof. exact parsed_roundtrip_ascii_unconditional_refuted. Qed.
+Print Assumptions C02_astral_refuted.
